@@ -33,6 +33,12 @@ pub fn rich() -> BuildSpec {
             DepSpec { ctor: "greater_eq", name: format!("lib{}", i), version: "1.2-3".into() },
         ]);
     }
+    s.deps.insert("recommends", vec![
+        DepSpec { ctor: "user", name: "u1".into(), version: "".into() },
+        DepSpec { ctor: "any", name: "after-user".into(), version: "".into() },
+        DepSpec { ctor: "group", name: "g1".into(), version: "".into() },
+        DepSpec { ctor: "greater_eq", name: "last".into(), version: "1.2-3".into() },
+    ]);
     s.changelog = vec![("A <a@x> - 1.0-1".into(), "- first".into(), 1_500_000_000), ("B <b@x> - 0.9-1".into(), "- zeroth\n- more".into(), 1_400_000_000)];
     let mut f1 = FileSpec::new("/etc/rich/config.toml", Content::Text(100));
     f1.flags = vec!["config"];
